@@ -659,6 +659,9 @@ func (ld *Loaded) verifyContract(c *Contract, useContracts bool) (vcs []*VC, err
 		}
 		q := &Query{Hyps: x.hyps}
 		for i, cl := range c.Ensures {
+			if cl.Label == "diffalt" {
+				continue
+			}
 			name := fmt.Sprintf("ensures#%d", i)
 			if cl.Label != "" {
 				name = "ensures[" + cl.Label + "]"
